@@ -697,8 +697,6 @@ Proof.
 Qed.
 
 (* ------------------------------------------------------------------ emission: columns, blocks, ids (C02) *)
-Definition endpoints (es : list (nat * nat)) : list nat := flat_map (fun e => [fst e; snd e]) es.
-
 Lemma endpoints_app : forall a b, endpoints (a ++ b) = endpoints a ++ endpoints b.
 Proof. intros. unfold endpoints. now rewrite flat_map_app. Qed.
 
@@ -1078,6 +1076,31 @@ Proof.
     + apply Forall_forall. intros v Hv. apply (H c v (or_introl eq_refl)).
       now apply (BC _ _ _ Hb).
     + apply IH. intros c' v Hc'. apply H. now right.
+Qed.
+
+(* ------------------------------------------------------------------ callback results stay inside their group *)
+Definition Closed (calls : list call) (results : list (nat * shape)) : Prop :=
+  Forall2 (fun c r => fst r = fst c /\ incl (endpoints (edges_of (snd r))) (snd c)) calls results.
+
+Theorem closed_okb_iff : forall calls results, closed_okb calls results = true <-> Closed calls results.
+Proof.
+  induction calls as [|c cs IH]; intros [|r rs]; cbn [closed_okb]; split; intro H;
+    try discriminate; try (now constructor); try (now inversion H).
+  - apply andb_true_iff in H. destruct H as [H H3]. apply andb_true_iff in H. destruct H as [H1 H2].
+    constructor; [|now apply IH]. split; [now apply Nat.eqb_eq|].
+    intros v Hv. rewrite forallb_forall in H2. now apply memb_In, H2.
+  - inversion H as [|? ? ? ? [Hj Hi] Hr]; subst. rewrite !andb_true_iff. split; [split|].
+    + now apply Nat.eqb_eq.
+    + apply forallb_forall. intros v Hv. now apply memb_In, Hi.
+    + now apply IH.
+Qed.
+
+Theorem results_closed : forall build cs results,
+  Results build cs results -> BuildClosed build -> Closed (map flat_call cs) results.
+Proof.
+  intros build cs results R BC. induction R as [|c r cs results [Hj Hb] R IH]; cbn [map]; constructor.
+  - split; [exact Hj|]. cbn [flat_call snd]. now apply (BC _ _ _ Hb).
+  - exact IH.
 Qed.
 
 (* ------------------------------------------------------------------ whole runs *)
